@@ -3,9 +3,11 @@ package harness
 // ctlJobs: the scenario product of family "ctl" (see fam_ctl.go).
 //
 // quick:    preemption bound 1 on the whole product; bound 2 where no
-//           consumer (or only one channel's consumer) is attached - the
-//           configurations in which a blocked send can matter - and for the
-//           plain Close program with every consumer.
+//
+//	consumer (or only one channel's consumer) is attached - the
+//	configurations in which a blocked send can matter - and for the
+//	plain Close program with every consumer.
+//
 // thorough: bound 2 on the whole product, bound 3 on the consumer-less part.
 func ctlJobs(tier string) []Job {
 	var jobs []Job
@@ -52,7 +54,7 @@ func init() {
 		Rule: ctlRule, Jobs: ctlJobs,
 		Assume: []string{"sequentially consistent interleavings at synchronisation points"}}
 	Checks["C13"] = &CheckDef{Prop: "C13", Technique: "stateless model checking of the real code: preemption-bounded exhaustive schedule enumeration plus init-fault enumeration; oracle = no inotify descriptor and no library goroutine left after Close returned",
-		Rule: ctlRule + "; plus family life: n create/close cycles x every subset of cycles whose inotify_init1 fails x consumer on/off",
-		Jobs: func(tier string) []Job { return append(lifeJobs(tier), ctlJobs(tier)...) },
+		Rule:   ctlRule + "; plus family life: n create/close cycles x every subset of cycles whose inotify_init1 fails x consumer on/off",
+		Jobs:   func(tier string) []Job { return append(lifeJobs(tier), ctlJobs(tier)...) },
 		Assume: []string{"descriptor accounting through the syscall seam (every inotify_init1/os.NewFile/Close of the back end is intercepted)"}}
 }
